@@ -400,6 +400,31 @@ func (k *kitGRPCClient) Emit(o, e []byte) error {
 	return err
 }
 
+// DialOnce: a host-side broker Dial of an id nobody accepts, in the calling goroutine.
+func (k *kitGRPCClient) DialOnce() error {
+	conn, err := k.broker.Dial(k.broker.NextId())
+	if err == nil {
+		conn.Close()
+	}
+	return err
+}
+
+func (k *kitRPCClient) DialOnce() error {
+	conn, err := k.broker.Dial(k.broker.NextId())
+	if err == nil {
+		conn.Close()
+	}
+	return err
+}
+
+func (k *kitRPCClient) AcceptOnce() error {
+	conn, err := k.broker.Accept(k.broker.NextId())
+	if err == nil {
+		conn.Close()
+	}
+	return err
+}
+
 // AcceptOnce: a host-side broker Accept on a fresh id, in the calling goroutine (so that a hang is the caller's hang).
 func (k *kitGRPCClient) AcceptOnce() error {
 	ln, err := k.broker.Accept(k.broker.NextId())
